@@ -107,3 +107,41 @@ func VH_C04_RegistryRestored() {
 	l := r.srv.ClientMgr.List()
 	vAssert("registry_only_other_client", len(l) == 1 && l[0] == r.other)
 }
+
+// c04Login runs one connection (handshake, login with the given password bytes, one request) and reports whether
+// the request was executed.
+func c04Login(srv *Server, pw []byte, served *int) bool {
+	before := *served
+	login := Transaction{Type: TranLogin, ID: [4]byte{0, 0, 0, 1}}
+	next := Transaction{Type: TranGetUserNameList, ID: [4]byte{0, 0, 0, 7}}
+	stream := []byte{'T', 'R', 'T', 'P', 'H', 'O', 'T', 'L', 0, 1, 0, 2}
+	stream = append(stream, refTransaction(&login, [][]byte{refField(FieldUserLogin[0], FieldUserLogin[1], []byte{0x9d, 0x90, 0x9d}), refField(FieldUserPassword[0], FieldUserPassword[1], pw)})...)
+	stream = append(stream, refTransaction(&next, nil)...)
+	srv.handleNewConnection(nil, &vRW{r: &vChunkReader{data: stream, whole: true}}, "10.1.2.3:4000")
+	vDrainOutbox(srv)
+	return *served > before
+}
+
+// "That account's current password": after a password change the old password no longer logs in and the new one
+// does, on later connections to the same server.
+func VH_C04_CurrentPasswordOnly() {
+	srv, _ := NewServer()
+	srv.Logger = vLogger()
+	vStartOutbox(srv)
+	oldPw := vBytesEach("old_pw", 2)
+	newPw := vBytesEach("new_pw", 2)
+	vAssume(string(oldPw) != string(newPw))
+	acct := &vAcctStub{exists: true, account: Account{Login: "bob", Name: "b", Password: HashAndSalt(oldPw)}}
+	srv.AccountManager = acct
+	srv.BanList = &vBanStub{}
+	srv.Agreement = &vSeeker{text: []byte("agreement")}
+	served := 0
+	srv.HandleFunc(TranGetUserNameList, func(cc *ClientConn, t *Transaction) []Transaction {
+		served++
+		return []Transaction{cc.NewReply(t)}
+	})
+	vAssert("old_password_logs_in_before_the_change", c04Login(srv, oldPw, &served))
+	acct.account.Password = HashAndSalt(newPw) // an administrator changes the password
+	vAssert("old_password_refused_after_the_change", !c04Login(srv, oldPw, &served))
+	vAssert("new_password_logs_in_after_the_change", c04Login(srv, newPw, &served))
+}
